@@ -30,7 +30,9 @@ type ExternalEnv struct {
 	B      *Base // the world that was written to the wallet store (names, keys); no service of it is used
 	Spec   Spec
 	ID     uint64
-	proc   *exec.Cmd
+	// TraceFile: when the binary was built with the verif tag, its storage observation points are appended here (VERIF_TRACE_FILE)
+	TraceFile string
+	proc      *exec.Cmd
 }
 
 // Node describes one instance of a cluster of real binaries.
@@ -177,6 +179,9 @@ func (e *ExternalEnv) StorageDir() string { return filepath.Join(e.Dir, "storage
 func (e *ExternalEnv) Start() error {
 	cmd := exec.Command(e.Binary, "--base-dir", e.Dir)
 	cmd.Env = append(os.Environ(), "HOME="+e.Dir)
+	if e.TraceFile != "" {
+		cmd.Env = append(cmd.Env, "VERIF_TRACE_FILE="+e.TraceFile)
+	}
 	errf, _ := os.OpenFile(filepath.Join(e.Dir, "dirk.stderr"), os.O_CREATE|os.O_WRONLY|os.O_APPEND, 0o600)
 	cmd.Stdout, cmd.Stderr = errf, errf
 	if err := cmd.Start(); err != nil {
@@ -259,6 +264,9 @@ func (r *Runner) RunRemote(ctx context.Context, sc *Scenario, binary string) err
 	}
 	defer env.Remove()
 	defer env.Kill()
+	if td := os.Getenv("VERIF_BIN_TRACE_DIR"); td != "" {
+		env.TraceFile = filepath.Join(td, sc.ID+".storetrace.ndjson")
+	}
 	if err := env.Start(); err != nil {
 		return err
 	}
